@@ -57,6 +57,19 @@ fn make_store() -> (GlobalDataArc, Vec<(String, DataArc)>) {
                 arc(Data::Map(o2))
             }),
             ("ro", ro),
+            // nested containers of equal shape on every level: a value compared with its own descendant walks
+            // down both sides in step
+            ("n3", arc(Data::Array(vec![arc(Data::Array(vec![arc(Data::Array(vec![arc(Data::Integer(1))]))]))]))),
+            ("n4", arc(Data::Array(vec![arc(Data::Array(vec![arc(Data::Array(vec![arc(Data::Array(vec![arc(Data::Integer(1))]))]))]))]))),
+            ("m3", {
+                let mut l1 = HashMap::new();
+                l1.insert("k".to_string(), arc(Data::Integer(1)));
+                let mut l2 = HashMap::new();
+                l2.insert("k".to_string(), arc(Data::Map(l1)));
+                let mut l3 = HashMap::new();
+                l3.insert("k".to_string(), arc(Data::Map(l2)));
+                arc(Data::Map(l3))
+            }),
         ];
         for (k, v) in list {
             g.data.map.insert(k.to_string(), v.clone());
@@ -376,6 +389,20 @@ fn c11_families(thorough: bool) -> Vec<Family> {
                 // the bare operand (as a condition: conversion to a truth value)
                 nums[(i - nn * nn * no - nn) as usize].to_string()
             }
+        }),
+    });
+    // a container compared with / added to / indexed by its own descendants and ancestors (equal shapes level by level)
+    let rel: Vec<&'static str> = vec![
+        "n3", "n3[0]", "(n3[0])[0]", "n4", "n4[0]", "(n4[0])[0]", "((n4[0])[0])[0]", "m3", "m3.k", "(m3.k).k", "m3['k']", "arr", "mm", "mm.b",
+    ];
+    let rops = ["==", "!=", "+", "<", ">="];
+    let relc = rel.clone();
+    v.push(Family {
+        name: "descendant-comparisons",
+        count: (rel.len() * rel.len() * rops.len()) as u64,
+        gen: Box::new(move |i| {
+            let n = relc.len() as u64;
+            format!("{} {} {}", relc[(i % n) as usize], rops[((i / n) % rops.len() as u64) as usize], relc[(i / n / rops.len() as u64) as usize])
         }),
     });
     v
